@@ -89,6 +89,7 @@ func (e *Env) call(c int, op Op) {
 		if h := needJ(); h != nil {
 			begin()
 			h.wait()
+			ret.St = h.status() // C16: sampled as early as possible after Wait has returned
 			end()
 		}
 	case "result":
